@@ -555,6 +555,81 @@ pub fn run(tier: &str) -> i32 {
         cleanup_workdirs();
         rep.extra.insert("test_command_permutation_runs".into(), json!(tp));
     }
+    // ---- the history dimension across documents: a rule referenced by name has the status of its own evaluation on *this*
+    //      document whether or not it was evaluated before - several data files in one validate run, in every order, must each
+    //      get the statuses they get alone (the referenced rule's status differs between the documents)
+    {
+        use crate::cli::{cleanup_workdirs, cli_inproc, put, sv};
+        use crate::report::parse_plain;
+        let programs = [
+            "rule base { a == 1 }\nrule user {\n  base\n}\nrule nuser {\n  not base\n}\nrule wuser when base { b exists }\n",
+            "rule user {\n  base\n}\nrule base when z exists { a == 1 }\nrule nuser {\n  not base or\n  b exists\n}\n",
+            "let v = a\nrule base { %v == 1 }\nrule mid {\n  base\n}\nrule top {\n  mid\n  base\n}\nrule other when not mid { a exists }\n",
+            "rule p(x) { %x == 1 }\nrule base { p(a) }\nrule user {\n  base\n  p(a)\n}\n",
+        ];
+        let docs = ["{\"a\":1,\"b\":1,\"z\":1}", "{\"a\":2,\"z\":1}", "{\"b\":1}", "{\"a\":1}"];
+        let statuses = |out: &str| -> Vec<(String, Vec<(String, St)>)> {
+            parse_plain(out, "sls").tables.iter().map(|t| {
+                let mut v: Vec<(String, St)> = vec![];
+                v.extend(t.pass.iter().map(|n| (n.clone(), St::Pass)));
+                v.extend(t.fail.iter().map(|n| (n.clone(), St::Fail)));
+                v.extend(t.skip.iter().map(|n| (n.clone(), St::Skip)));
+                v.sort();
+                (t.data.rsplit('/').next().unwrap_or("").to_string(), v)
+            }).collect()
+        };
+        let mut hist = 0u64;
+        let mut distinct: std::collections::BTreeSet<String> = Default::default();
+        for (pi, prog) in programs.iter().enumerate() {
+            let rp = put("c04h/r.guard", prog);
+            let dps: Vec<String> = docs.iter().enumerate().map(|(k, d)| put(&format!("c04h/d{}.json", k), d)).collect();
+            // alone
+            let mut alone: Vec<Vec<(String, St)>> = vec![];
+            for dp in &dps {
+                let o = cli_inproc(&sv(&["validate", "-r", &rp, "-d", dp, "-S", "all"]), "");
+                let st = statuses(&o.out);
+                alone.push(st.first().map(|x| x.1.clone()).unwrap_or_default());
+                distinct.insert(format!("{:?}", alone.last().unwrap()));
+            }
+            // every ordered selection of 2 and 3 documents
+            let mut sels: Vec<Vec<usize>> = vec![];
+            for x in 0..docs.len() {
+                for y in 0..docs.len() {
+                    if x == y { continue; }
+                    sels.push(vec![x, y]);
+                    for z in 0..docs.len() {
+                        if z != x && z != y { sels.push(vec![x, y, z]); }
+                    }
+                }
+            }
+            for sel in &sels {
+                for extra in [vec!["-S", "all"], vec!["-S", "all", "-v"], vec!["-S", "all", "-o", "json"]] {
+                    let mut argv = sv(&["validate", "-r", &rp]);
+                    for k in sel {
+                        argv.push("-d".into());
+                        argv.push(dps[*k].clone());
+                    }
+                    argv.extend(sv(&extra));
+                    let o = cli_inproc(&argv, "");
+                    hist += 1;
+                    res.acc.traces += 1;
+                    let got = statuses(&o.out);
+                    for k in sel {
+                        let name = format!("d{}.json", k);
+                        let mine = got.iter().find(|(n, _)| *n == name).map(|x| x.1.clone());
+                        if mine.as_ref() != Some(&alone[*k]) {
+                            res.acc.violate("status-depends-on-earlier-documents", format!("program {} with data files {:?} ({:?}): {} gets {:?}, alone it gets {:?}", pi, sel, extra, name, mine, alone[*k]), json!({"kind":"cli","argv":argv,"stdin":"","files":{"r.guard":prog,"docs":docs},"expected":format!("{:?}", alone[*k]),"observed":format!("{:?}", mine)}));
+                        }
+                    }
+                }
+            }
+        }
+        cleanup_workdirs();
+        if distinct.len() < 4 {
+            res.acc.violate("machinery:history-section-vacuous", format!("only {} distinct status vectors", distinct.len()), json!({}));
+        }
+        rep.extra.insert("document_history_runs".into(), json!(hist));
+    }
     rep.states = res.acc.traces;
     rep.transitions = res.acc.nontrivial + b.transitions;
     if res.capped {
